@@ -412,6 +412,11 @@ def r36(ctx):
         t = fv.b.term(h).call.target
         # loop exit edges = edges where next() returned None
         none_edges = fv.result_edges(h, fv.b.term(h).call, "err")
+        for sb, ln in R.success_blocks(fv):
+            ctx.ob("R3.6", fv.must_pass(sb, none_edges) and bool(none_edges), f"{b.name}/ok-after-loop",
+                   "provide_secret can answer Ok before the secret was compared with all earlier secrets (e.g. for an index it "
+                   "already holds): a secret that does not chain is accepted", where=f"{b.file}:{ln}",
+                   sample="Ok dominated by the exit of the comparison loop")
         for w in wsites:
             ok = fv.must_pass(w[0], none_edges) and bool(none_edges)
             ctx.ob("R3.6", ok, f"{b.name}/write-after-loop/{w[2].rsplit('::', 1)[-1]}",
